@@ -343,6 +343,171 @@ fn run_idl(text: &str) -> Option<String> {
         _ => None,
     }
 }
+
+// ---------------------------------------------------------------------------------------------
+// C13: grammar-driven generator.  A random interface TREE is rendered with a random LEGAL layout (whitespace between
+// tokens, comment lines on their own lines before members and before parameters / fields) and parsed by the real
+// parser; the parsed description must denote exactly the generating tree (names, types, order within each kind).
+#[derive(Debug, Clone, PartialEq)]
+enum GTy { Prim(&'static str), Custom(String), Opt(Box<GTy>), Arr(Box<GTy>), Map(Box<GTy>), Struct(Vec<(String, GTy)>), Enum(Vec<String>) }
+#[derive(Debug, Clone)]
+enum GMember { Type(String, GTy), Method(String, Vec<(String, GTy)>, Vec<(String, GTy)>), Error(String, Vec<(String, GTy)>) }
+fn g_type_name(rng: &mut Rng) -> String {
+    let up = b"ABCDEFGHIJKLMNOPQRSTUVWXYZ"; let rest = b"abcdefghijklmnopqrstuvwxyzABCDEFGHIJKLMNOPQRSTUVWXYZ0123456789";
+    let mut n = String::new(); n.push(up[rng.below(up.len())] as char);
+    for _ in 0..rng.below(6) { n.push(rest[rng.below(rest.len())] as char); }
+    n
+}
+fn g_field_name(rng: &mut Rng) -> String {
+    // [A-Za-z]([_]?[A-Za-z0-9])*  (single underscores only between alphanumerics: inside the grammar AND the known finding)
+    let al = b"abcdefghijklmnopqrstuvwxyzABCDEFGHIJKLMNOPQRSTUVWXYZ"; let an = b"abcdefghijklmnopqrstuvwxyz0123456789XYZ";
+    let mut n = String::new(); n.push(al[rng.below(al.len())] as char);
+    for _ in 0..rng.below(6) { if rng.below(5) == 0 { n.push('_'); } n.push(an[rng.below(an.len())] as char); }
+    n
+}
+fn g_ty(rng: &mut Rng, depth: usize, allow_opt: bool) -> GTy {
+    let k = if depth == 0 { rng.below(6) } else { rng.below(11) };
+    match k {
+        0 => GTy::Prim("bool"), 1 => GTy::Prim("int"), 2 => GTy::Prim("float"), 3 => GTy::Prim("string"), 4 => GTy::Prim("object"),
+        5 => GTy::Custom(g_type_name(rng)),
+        6 if allow_opt => GTy::Opt(Box::new(g_ty(rng, depth - 1, false))),
+        6 | 7 => GTy::Arr(Box::new(g_ty(rng, depth - 1, true))),
+        8 => GTy::Map(Box::new(g_ty(rng, depth - 1, true))),
+        9 => GTy::Struct((0..rng.below(4)).map(|_| (g_field_name(rng), g_ty(rng, depth - 1, true))).collect()),
+        _ => GTy::Enum((0..1 + rng.below(4)).map(|_| g_field_name(rng)).collect()),
+    }
+}
+fn g_gap(rng: &mut Rng, must: bool) -> &'static str {
+    if must { [" ", "  ", "\t", " \t "][rng.below(4)] } else { ["", "", " ", "\n", "\t", "  ", "\n    ", " \n"][rng.below(8)] }
+}
+fn g_comment(rng: &mut Rng, out: &mut String, fancy: bool) {
+    // comment lines on their own lines; `fancy` comments contain punctuation of the grammar
+    for _ in 0..rng.below(3) {
+        let c = if fancy { ["# a) note: x", "# (", "#", "# -> ,", "#:)"][rng.below(5)] } else { ["# plain note", "#", "# Another one"][rng.below(3)] };
+        out.push_str(c); out.push('\n'); out.push_str(["", "  ", "\t"][rng.below(3)]);
+    }
+}
+fn g_render_ty(t: &GTy, rng: &mut Rng, out: &mut String, layout: u8) {
+    match t {
+        GTy::Prim(p) => out.push_str(p), GTy::Custom(n) => out.push_str(n),
+        GTy::Opt(i) => { out.push('?'); g_render_ty(i, rng, out, layout); }
+        GTy::Arr(i) => { out.push_str("[]"); g_render_ty(i, rng, out, layout); }
+        GTy::Map(i) => { out.push_str("[string]"); g_render_ty(i, rng, out, layout); }
+        GTy::Struct(fs) => g_render_fields(fs, rng, out, layout),
+        GTy::Enum(vs) => {
+            out.push('('); if layout > 0 { out.push_str(g_gap(rng, false)); }
+            for (i, v) in vs.iter().enumerate() {
+                if i > 0 { if layout > 0 { out.push_str(g_gap(rng, false)); } out.push(','); if layout > 0 { out.push_str(g_gap(rng, false)); } else { out.push(' '); } }
+                if layout > 2 && rng.below(3) == 0 { out.push('\n'); g_comment(rng, out, true); }
+                out.push_str(v);
+            }
+            if layout > 0 { out.push_str(g_gap(rng, false)); } out.push(')');
+        }
+    }
+}
+fn g_render_fields(fs: &[(String, GTy)], rng: &mut Rng, out: &mut String, layout: u8) {
+    out.push('('); if layout > 0 { out.push_str(g_gap(rng, false)); }
+    for (i, (n, t)) in fs.iter().enumerate() {
+        if i > 0 { if layout > 0 { out.push_str(g_gap(rng, false)); } out.push(','); if layout > 0 { out.push_str(g_gap(rng, false)); } else { out.push(' '); } }
+        if layout > 1 && rng.below(3) == 0 { out.push('\n'); g_comment(rng, out, layout > 2); }
+        out.push_str(n); if layout > 0 { out.push_str(g_gap(rng, false)); } out.push(':'); if layout > 0 { out.push_str(g_gap(rng, false)); } else { out.push(' '); }
+        g_render_ty(t, rng, out, layout);
+    }
+    if layout > 0 { out.push_str(g_gap(rng, false)); } out.push(')');
+}
+fn g_render(name: &str, members: &[GMember], rng: &mut Rng, layout: u8) -> String {
+    let mut out = String::new();
+    if layout > 1 { g_comment(rng, &mut out, false); }
+    out.push_str("interface"); out.push_str(g_gap(rng, true)); out.push_str(name); out.push('\n');
+    for m in members {
+        out.push_str(["", "\n", "  ", "\n\n"][rng.below(4)]);
+        if layout > 1 { g_comment(rng, &mut out, false); }
+        match m {
+            GMember::Type(n, t) => { out.push_str("type"); out.push_str(g_gap(rng, true)); out.push_str(n); out.push_str(if layout > 0 { g_gap(rng, false) } else { " " }); g_render_ty(t, rng, &mut out, layout); }
+            GMember::Method(n, i, o) => { out.push_str("method"); out.push_str(g_gap(rng, true)); out.push_str(n); if layout > 0 { out.push_str(g_gap(rng, false)); }
+                g_render_fields(i, rng, &mut out, layout); out.push_str(if layout > 0 { g_gap(rng, false) } else { " " }); out.push_str("->"); out.push_str(if layout > 0 { g_gap(rng, false) } else { " " }); g_render_fields(o, rng, &mut out, layout); }
+            GMember::Error(n, f) => { out.push_str("error"); out.push_str(g_gap(rng, true)); out.push_str(n); out.push_str(if layout > 0 { g_gap(rng, false) } else { " " }); g_render_fields(f, rng, &mut out, layout); }
+        }
+        out.push('\n');
+    }
+    out
+}
+fn g_canon_ty(t: &GTy) -> String {
+    match t {
+        GTy::Prim(p) => p.to_string(), GTy::Custom(n) => format!("@{n}"),
+        GTy::Opt(i) => format!("?{}", g_canon_ty(i)), GTy::Arr(i) => format!("[]{}", g_canon_ty(i)), GTy::Map(i) => format!("[string]{}", g_canon_ty(i)),
+        GTy::Struct(fs) => format!("({})", fs.iter().map(|(n, t)| format!("{n}:{}", g_canon_ty(t))).collect::<Vec<_>>().join(",")),
+        GTy::Enum(vs) => format!("<{}>", vs.join("|")),
+    }
+}
+fn p_canon_ty(t: &zlink_core::idl::Type<'_>) -> String {
+    use zlink_core::idl::Type as T;
+    match t {
+        T::Bool => "bool".into(), T::Int => "int".into(), T::Float => "float".into(), T::String => "string".into(), T::ForeignObject => "object".into(),
+        T::Custom(n) => format!("@{n}"),
+        T::Optional(i) => format!("?{}", p_canon_ty(i.inner())), T::Array(i) => format!("[]{}", p_canon_ty(i.inner())), T::Map(i) => format!("[string]{}", p_canon_ty(i.inner())),
+        T::Object(fs) => format!("({})", fs.iter().map(|f| format!("{}:{}", f.name(), p_canon_ty(f.ty()))).collect::<Vec<_>>().join(",")),
+        T::Enum(vs) => format!("<{}>", vs.iter().map(|v| v.name().to_string()).collect::<Vec<_>>().join("|")),
+        #[allow(unreachable_patterns)]
+        _ => "<?>".into(),
+    }
+}
+fn g_canon(name: &str, members: &[GMember]) -> String {
+    let fl = |fs: &Vec<(String, GTy)>| fs.iter().map(|(n, t)| format!("{n}:{}", g_canon_ty(t))).collect::<Vec<_>>().join(",");
+    let mut m = vec![]; let mut t = vec![]; let mut e = vec![];
+    for x in members { match x {
+        // a `type` whose definition is a struct / enum is a custom object / enum; the empty struct `()` is a struct
+        GMember::Type(n, GTy::Struct(fs)) => t.push(format!("T {n}({})", fl(fs))),
+        GMember::Type(n, GTy::Enum(vs)) => t.push(format!("T {n}<{}>", vs.join("|"))),
+        GMember::Type(n, other) => t.push(format!("T {n}={}", g_canon_ty(other))),
+        GMember::Method(n, i, o) => m.push(format!("M {n}({})->({})", fl(i), fl(o))),
+        GMember::Error(n, f) => e.push(format!("E {n}({})", fl(f))),
+    } }
+    format!("{name}|{}|{}|{}", m.join(";"), t.join(";"), e.join(";"))
+}
+fn p_canon(i: &zlink_core::idl::Interface<'_>) -> String {
+    let m: Vec<String> = i.methods().map(|m| format!("M {}({})->({})", m.name(),
+        m.inputs().map(|p| format!("{}:{}", p.name(), p_canon_ty(p.ty()))).collect::<Vec<_>>().join(","),
+        m.outputs().map(|p| format!("{}:{}", p.name(), p_canon_ty(p.ty()))).collect::<Vec<_>>().join(","))).collect();
+    let t: Vec<String> = i.custom_types().map(|t| {
+        if let Some(o) = t.as_object() { format!("T {}({})", o.name(), o.fields().map(|f| format!("{}:{}", f.name(), p_canon_ty(f.ty()))).collect::<Vec<_>>().join(",")) }
+        else if let Some(e) = t.as_enum() { format!("T {}<{}>", e.name(), e.variants().map(|v| v.name().to_string()).collect::<Vec<_>>().join("|")) }
+        else { format!("T {}=?", t.name()) }
+    }).collect();
+    let e: Vec<String> = i.errors().map(|e| format!("E {}({})", e.name(), e.fields().map(|f| format!("{}:{}", f.name(), p_canon_ty(f.ty()))).collect::<Vec<_>>().join(","))).collect();
+    format!("{}|{}|{}|{}", i.name(), m.join(";"), t.join(";"), e.join(";"))
+}
+/// returns Some(why) when the real parser does not build the generating tree from `text`
+fn run_idl_tree(text: &str, expect: &str) -> Option<String> {
+    let t = text.to_string();
+    let r = std::panic::catch_unwind(move || zlink_core::idl::Interface::try_from(t.as_str()).map(|i| p_canon(&i)).map_err(|e| e.to_string()));
+    match r {
+        Err(_) => Some("parser panicked on a legal text".into()),
+        Ok(Err(e)) => Some(format!("legal text rejected: {e}")),
+        Ok(Ok(c)) if c != expect => Some(format!("parsed description differs from the generating tree:\n  expected {expect}\n  got      {c}")),
+        Ok(Ok(_)) => None,
+    }
+}
+fn search_idl_tree(rng: &mut Rng, budget: usize) -> Option<Value> {
+    for it in 0..budget {
+        let name = ["org.example.test", "a.b", "a-b.c-d", "x.1y", "io.systemd.v1"][rng.below(5)];
+        let depth = rng.below(4);
+        let members: Vec<GMember> = (0..rng.below(6)).map(|_| match rng.below(3) {
+            0 => { let t = if rng.below(2) == 0 { GTy::Struct((0..rng.below(4)).map(|_| (g_field_name(rng), g_ty(rng, depth, true))).collect()) } else { GTy::Enum((0..1 + rng.below(4)).map(|_| g_field_name(rng)).collect()) }; GMember::Type(g_type_name(rng), t) }
+            1 => GMember::Method(g_type_name(rng), (0..rng.below(4)).map(|_| (g_field_name(rng), g_ty(rng, depth, true))).collect(), (0..rng.below(3)).map(|_| (g_field_name(rng), g_ty(rng, depth, true))).collect()),
+            _ => GMember::Error(g_type_name(rng), (0..rng.below(3)).map(|_| (g_field_name(rng), g_ty(rng, depth, true))).collect()),
+        }).collect();
+        // layout 0: canonical single spaces; 1: random whitespace; 2: + plain comment lines before members / fields
+        // 3: + comment lines before enum variants, comments containing the grammar's punctuation
+        let layout = (it % 4) as u8;
+        let text = g_render(name, &members, rng, layout);
+        let expect = g_canon(name, &members);
+        if let Some(why) = run_idl_tree(&text, &expect) {
+            return Some(json!({"kind":"idl_tree","text":text,"expect":expect,"layout":layout,"why":why}));
+        }
+    }
+    None
+}
 fn search_idl(seed: u64, budget: usize) -> Option<Value> {
     std::panic::set_hook(Box::new(|_| {}));
     let mut rng = Rng(seed.wrapping_mul(0x9E3779B97F4A7C15) | 1);
@@ -401,7 +566,7 @@ fn search_idl(seed: u64, budget: usize) -> Option<Value> {
             return Some(json!({"kind":"idl","text":t,"why":why}));
         }
     }
-    None
+    search_idl_tree(&mut rng, budget / 4)
 }
 
 // ---------------------------------------------------------------------------------------------
@@ -477,9 +642,8 @@ fn search_send(seed: u64, budget: usize) -> Option<Value> {
 fn call_method(m: u8, x: u32) -> M {
     match m { 0 => M::B { a: x }, 1 => M::C, 2 => M::S { s: format!("s{x}") }, _ => M::T { n: x } }
 }
-fn run_call(m: u8, x: u32, flags: [Option<bool>; 3], order: u64) -> Option<String> {
+fn run_call_t<T: Serialize + serde::de::DeserializeOwned + PartialEq + std::fmt::Debug + Clone>(method: T, flags: [Option<bool>; 3], order: u64) -> Option<String> {
     let names = ["oneway", "more", "upgrade"];
-    let method = call_method(m, x);
     // (1) encoding: ONE object = the method's own members + each flag exactly when set, as `true`
     let set = |k: usize| flags[k] == Some(true);
     let c = Call::new(method.clone()).set_oneway(set(0)).set_more(set(1)).set_upgrade(set(2));
@@ -499,23 +663,48 @@ fn run_call(m: u8, x: u32, flags: [Option<bool>; 3], order: u64) -> Option<Strin
     let mut o = order;
     for i in (1..entries.len()).rev() { let j = (o % (i as u64 + 1)) as usize; o /= i as u64 + 1; entries.swap(i, j); }
     let doc = format!("{{{}}}", entries.iter().map(|(k, v)| format!("{}:{}", serde_json::to_string(k).unwrap(), v)).collect::<Vec<_>>().join(","));
-    let d: Call<M> = match serde_json::from_str(&doc) { Ok(d) => d, Err(e) => return Some(format!("decoding {doc} failed: {e}")) };
+    let d: Call<T> = match serde_json::from_str(&doc) { Ok(d) => d, Err(e) => return Some(format!("decoding {doc} failed: {e}")) };
     let wantf = [flags[0].unwrap_or(false), flags[1].unwrap_or(false), flags[2].unwrap_or(false)];
     if *d.method() != method || [d.oneway(), d.more(), d.upgrade()] != wantf {
         return Some(format!("decoding {doc}: got method {:?} flags {:?}, want {:?} {:?}", d.method(), [d.oneway(), d.more(), d.upgrade()], method, wantf));
     }
     // (3) round trip
-    let back: Call<M> = match serde_json::from_str(&text) { Ok(d) => d, Err(e) => return Some(format!("round trip of {text} failed: {e}")) };
+    let back: Call<T> = match serde_json::from_str(&text) { Ok(d) => d, Err(e) => return Some(format!("round trip of {text} failed: {e}")) };
     if *back.method() != method || [back.oneway(), back.more(), back.upgrade()] != [set(0), set(1), set(2)] {
         return Some(format!("round trip of {text}: got {:?} {:?}", back.method(), [back.oneway(), back.more(), back.upgrade()]));
     }
     None
 }
+/// method types that are NOT the usual {method, parameters} tagged enum: the envelope code must hand them every member that
+/// is not a flag ("whatever the method type")
+#[derive(Debug, Deserialize, Serialize, PartialEq, Clone)]
+struct PlainM { id: u32, name: String }
+#[derive(Debug, Deserialize, Serialize, PartialEq, Clone)]
+struct EnvelopeM { method: String, parameters: P, trace_id: u32 }
+#[derive(Debug, Deserialize, Serialize, PartialEq, Clone)]
+#[serde(deny_unknown_fields)]
+struct StrictM { method: String }
+fn run_call(m: u8, x: u32, flags: [Option<bool>; 3], order: u64) -> Option<String> {
+    match m {
+        0..=3 => run_call_t(call_method(m, x), flags, order),
+        4 => run_call_t(PlainM { id: x, name: format!("n{x}") }, flags, order),
+        5 => run_call_t(EnvelopeM { method: "a.B".into(), parameters: P { a: x }, trace_id: x ^ 7 }, flags, order),
+        _ => {
+            // a strict method type must SEE (and so refuse) a member that is neither its own nor a flag
+            if let Some(w) = run_call_t(StrictM { method: "a.C".into() }, flags, order) { return Some(w); }
+            let doc = format!(r#"{{"method":"a.C","bogus":[{x}],"oneway":true}}"#);
+            match serde_json::from_str::<Call<StrictM>>(&doc) {
+                Ok(d) => Some(format!("decoding {doc} into a deny_unknown_fields method type succeeded ({:?}): the unknown member was hidden from the method type", d.method())),
+                Err(_) => None,
+            }
+        }
+    }
+}
 fn search_call(seed: u64, budget: usize) -> Option<Value> {
     let mut rng = Rng(seed.wrapping_mul(0x9E3779B97F4A7C15) | 1);
     let f = |r: usize| match r { 0 => None, 1 => Some(false), _ => Some(true) };
     for _ in 0..budget {
-        let (m, x) = (rng.below(4) as u8, rng.below(1000) as u32);
+        let (m, x) = (rng.below(7) as u8, rng.below(1000) as u32);
         let flags = [f(rng.below(3)), f(rng.below(3)), f(rng.below(3))];
         let order = rng.next();
         if let Some(why) = run_call(m, x, flags, order) {
@@ -876,6 +1065,15 @@ fn main() {
                 std::process::exit(1);
             }
             println!("REPLAY: passes on the real code");
+        }
+        Some("idl_tree") => {
+            let t = w["text"].as_str().unwrap();
+            let e = w["expect"].as_str().unwrap();
+            println!("legal text (generated from a tree, random legal layout) = {t:?}\nexpected description = {e}");
+            match run_idl_tree(t, e) {
+                Some(why) => { println!("{why}\nREPLAY: FAILS on the real code"); std::process::exit(1); }
+                None => println!("REPLAY: passes on the real code"),
+            }
         }
         Some("idl_reject") => {
             let t = w["text"].as_str().unwrap().to_string();
